@@ -134,10 +134,10 @@ open Qbice.Core (Op OpOut Ref)
 theorem restart_transparent_fw (p : Program) (h : List POp) (s : St) :
     outs (runP p h s) = outs (runOps p (POp.erase h) s) := runP_erase p h s
 
-/-- `restart_sound` on the extended core model, with C01's `core_history_sound_partial` (programs
-    without a projection over a projection): a history with restarts run from the initial state
+/-- `restart_sound` on the extended core model, with C01's `core_history_sound_partial` (`Shape p`:
+    no projection over a projection, or all projections static): a history with restarts run from the initial state
     produces the outputs of the from-scratch reference. -/
-theorem restart_sound_fw_partial {p : Program} (wf : WF p) (pf : NoProjOverProj p) {h : List POp}
+theorem restart_sound_fw_partial {p : Program} (wf : WF p) (sh : Shape p) {h : List POp}
     {o : List OpOut} {s' : St} (hr : runP p h {} = .ok (o, s')) :
     OutOK p (POp.erase h) o Ref.init := by
   have e := restart_transparent_fw p h {}
@@ -150,7 +150,7 @@ theorem restart_sound_fw_partial {p : Program} (wf : WF p) (pf : NoProjOverProj 
     rw [h2] at e
     simp only [Except.ok.injEq] at e
     subst e
-    exact ((runOps_spec wf pf (POp.erase h) {} (Inv.init p)).ok h2).1
+    exact ((runOps_spec wf sh (POp.erase h) {} (Inv.init p)).ok h2).1
 
 example (p : Program) : outs (runP p [.restart, .restart] {}) = .ok [] := rfl
 
